@@ -16,7 +16,7 @@ from typing import Any
 
 from .consts import UNKNOWN
 from .ctx import Ctx
-from .loader import FuncInfo, call_name, norm, own_nodes, parent
+from .loader import FuncInfo, call_name, tnorm as norm, own_nodes, parent
 
 
 @dataclass(frozen=True)
